@@ -243,7 +243,7 @@ theorem C07_dump_structure (t : Topo) :
 /-- **build_wf, clause by clause, for EVERY abstract topology** that satisfies the decidable side condition `topoOK`
 (positive arities, normal non-Machine level types, PU level last and only there, no memory on PUs, PU os_indexes = `puIdx`,
 cache levels carry the depth/kind of their type), `puOK` (`puIdx` has one distinct entry per PU) and `memOK` (there is a
-NUMA node) — the driver evaluates all three on every topology `buildTopo` returns and hwloc agrees with: every clause of `Hw.Topo.WF` named in `provedTopClauses` / `provedObjClauses` holds for `toDump t` — the tree
+NUMA node) and `numaOK` (`numaIdx` has one distinct entry per NUMA node) — the driver evaluates all four on every topology `buildTopo` returns and hwloc agrees with: every clause of `Hw.Topo.WF` named in `provedTopClauses` / `provedObjClauses` holds for `toDump t` — the tree
 links (parent, children arrays, sibling links and ranks, memory-children lists: heads and doubly linked order), depth and
 level tables (root level, PU level deepest, every level listed and non-empty, level types), PU cpusets and NUMA nodesets
 are singletons of the os_index, **the cpuset of every normal non-PU object is the disjoint union of its children's cpusets**
@@ -251,32 +251,34 @@ are singletons of the os_index, **the cpuset of every normal non-PU object is th
 unique PU os_indexes, cpusets and nodesets included in the parent's, the type→depth table is the inverse of the level
 table, every object sits in the level of its depth at its logical index with the cousin links of its neighbours (normal
 levels and the NUMA / MemCache special levels: the closed-form position `postPos` is the position in the recursive DFS
-listing), the levels list exactly as many objects as the dump has, a NUMA node exists, NUMA nodesets inside the allowed set, memory-side-cache nodesets, PU cpusets inside the allowed
+listing), the levels list exactly as many objects as the dump has, every level entry is an object of that depth with that logical
+index, every level is in DFS (tree) order, unique NUMA os_indexes, a NUMA node exists, NUMA nodesets inside the allowed set, memory-side-cache nodesets, PU cpusets inside the allowed
 set, memory children share their parent's cpuset, cache and group attributes, allowed sets, unique gp_index, object count.  No bound on the depth, the arities, the number of memory children or the index values. -/
-theorem C07_build_wf_clauses (t : Topo) (h : topoOK t = true) (hp : puOK t = true) (hm : memOK t = true) :
+theorem C07_build_wf_clauses (t : Topo) (h : topoOK t = true) (hp : puOK t = true) (hm : memOK t = true)
+    (hn : numaOK t = true) :
     (∀ c ∈ topClauses, c.1 ∈ provedTopClauses → c.2 (toDump t) (mkAux (toDump t)) = true) ∧
     (∀ c ∈ objClauses, c.1 ∈ provedObjClauses → ∀ o ∈ (toDump t).objs, c.2 (toDump t) (mkAux (toDump t)) o = true) :=
-  ⟨top_clauses_proved t (topoOK_OK t h) hp hm, obj_clauses_proved t (topoOK_OK t h) hp⟩
+  ⟨top_clauses_proved t (topoOK_OK t h) hp hm hn, obj_clauses_proved t (topoOK_OK t h) hp⟩
 
 /-- **build_wf, partial**: for every such topology the whole conjunction `WF (toDump t)` follows from the clauses that are
 NOT yet proved in general (`restOK`: the executable check of exactly those clauses; they stay table-only —
 C07_build_wf_bounded — and oracle-checked per case).  Missing for the full theorem: see `C07_build_wf_unproved_clauses`. -/
 theorem C07_build_wf_partial (t : Topo) (h : topoOK t = true) (hp : puOK t = true) (hm : memOK t = true)
-    (hr : restOK (toDump t) = true) : WF (toDump t) :=
-  wf_of_rest t (topoOK_OK t h) hp hm hr
+    (hn : numaOK t = true) (hr : restOK (toDump t) = true) : WF (toDump t) :=
+  wf_of_rest t (topoOK_OK t h) hp hm hn hr
 
 /-- exactly which clauses remain unproved in general -/
 theorem C07_build_wf_unproved_clauses :
     (topClauses.map (·.1)).filter (fun n => !provedTopClauses.contains n) =
-      ["level-entries-valid", "numa-osindex-unique", "levels-in-tree-order"] ∧
+      [] ∧
     (objClauses.map (·.1)).filter (fun n => !provedObjClauses.contains n) =
       ["nodeset-decomposition", "siblings-ordered"] := by
   decide
 
 /-- non-vacuity: the whole bounded family satisfies the side condition, and so does a 5-level topology outside it
 (Package:3 [2 NUMA, one with a memory-side cache] / L3:2 / Core:2 / PU:2) -/
-example : wfFamily.all (fun t => topoOK t && puOK t && memOK t) = true := by decide
-example : (fun t => topoOK t && puOK t && memOK t) (orderTopo [] [{ type := tPACKAGE, arity := 3, mem := [⟨1024, 0⟩, ⟨2048, 512⟩] },
+example : wfFamily.all (fun t => topoOK t && puOK t && memOK t && numaOK t) = true := by decide
+example : (fun t => topoOK t && puOK t && memOK t && numaOK t) (orderTopo [] [{ type := tPACKAGE, arity := 3, mem := [⟨1024, 0⟩, ⟨2048, 512⟩] },
     { type := tL1 + 2, arity := 2, cdepth := 3, ctype := 0, size := 1048576 }, { type := tCORE, arity := 2 }, { type := tPU, arity := 2 }]
     (List.range 24) (List.range 6)) = true := by decide
 
